@@ -492,6 +492,7 @@ def main():
     scratch = vlib.mkscratch("c08")
     if rp is not None:
         wit = rp["witness"]
+        c.sample({"replayed": {k: wit.get(k) for k in ("pytest_nodeid", "after_op", "component", "platform")}})
         if "pytest_nodeid" in wit:
             p, out, log = run_repo_tests(c, [], scratch, only_nodeid=wit["pytest_nodeid"])
             judge_repo_tests(c, p, out, log, scratch, 600)
